@@ -744,6 +744,15 @@ impl Compiler {
         // Push loop context for break (switch uses the same break mechanism)
         self.push_loop(None);
 
+        // Function declarations in any clause are hoisted to the top of the switch body
+        for case in switch_stmt.cases.iter() {
+            for stmt in case.consequent.iter() {
+                if matches!(stmt, Statement::FunctionDeclaration(_)) {
+                    self.compile_statement_impl(stmt)?;
+                }
+            }
+        }
+
         // Collect case targets
         let mut case_jumps: Vec<super::JumpPlaceholder> = Vec::new();
         let mut default_jump: Option<super::JumpPlaceholder> = None;
@@ -796,9 +805,11 @@ impl Compiler {
                 }
             }
 
-            // Compile case statements
+            // Compile case statements (function declarations were hoisted above)
             for stmt in case.consequent.iter() {
-                self.compile_statement_impl(stmt)?;
+                if !matches!(stmt, Statement::FunctionDeclaration(_)) {
+                    self.compile_statement_impl(stmt)?;
+                }
             }
         }
 
